@@ -749,3 +749,13 @@ def c13_g(ctx):
     fns += list(ctx.cls('elfi.methods.utils:GMDistribution').methods.values())
     scale_free_sweep(ctx, fns, 'valid weights / spreads below the tolerance are treated as zero, '
                                'so the statistic depends on the scale of its input')
+
+
+@obligation('C13-h', 'T2', 'no result buffer takes the dtype of a caller\'s array and then receives '
+            'computed values (shared sweep of C08-l, restricted to the modules this property is '
+            'anchored in; `*_like(x)` and `dtype=x.dtype` allocations)', floor=1,
+            necessary='the statistics equal their formulas for integer-typed samples and weights too (numpy truncates floats silently when they are assigned into an '
+                      'integer array)')
+def c13_dtype(ctx):
+    from .base import inherited_dtype_obligation
+    inherited_dtype_obligation(ctx, ['elfi.methods.utils'])
